@@ -200,10 +200,13 @@ Definition update (k : kind) (s : nstate) (port : nat) (x : val) (m : md) : opti
       end
   | KSlice start stop step =>
       let n := st_n s in
+      (* finished (and detached): an emission of the upstream that was already under way still calls the node *)
+      if match stop with Some e => e <=? n | None => false end then Some [ASet s] else
       let pass := (start <=? n) && ((n - start) mod step =? 0) in
       let n' := S n in
       let det := match stop with Some e => e <=? n' | None => false end in
-      Some ((if pass then [AEmit x m] else []) ++ [ASet (set_n s n' det)])
+      (* the element is counted (and the node detached once `stop` is reached) BEFORE it is passed on *)
+      Some (ASet (set_n s n' det) :: (if pass then [AEmit x m] else []))
   | KPartition n key =>
       let ky := match key with Some kf => kf x | None => VNone end in
       let '(vs, ms) := match assoc_get ky (st_keyed s) with Some b => b | None => ([], []) end in
@@ -242,10 +245,11 @@ Definition update (k : kind) (s : nstate) (port : nat) (x : val) (m : md) : opti
       let s1 := set_seen (set_win s w') vals in
       if partial || (length vals =? n) then
         let flat := flat_map snd w' in
-        if length w' =? n then
-          Some [ARetain m; ASet s1; AEmit (VTup vals) flat;
-                ASet (set_win s1 (tl w')); ARelease (match w' with (_, hm) :: _ => hm | [] => [] end)]
-        else Some [ARetain m; ASet s1; AEmit (VTup vals) flat]
+        (* when the metadata deque is full its oldest entry leaves BEFORE the window is emitted; its references are
+           released afterwards (release of nothing otherwise) *)
+        let full := length w' =? n in
+        Some [ARetain m; ASet (if full then set_win s1 (tl w') else s1); AEmit (VTup vals) flat;
+              ARelease (if full then match w' with (_, hm) :: _ => hm | [] => [] end else [])]
       else Some [ARetain m; ASet s1]
   | KUnique maxsize key =>
       let y := key x in
@@ -317,7 +321,7 @@ Definition update (k : kind) (s : nstate) (port : nat) (x : val) (m : md) : opti
 (* collect.flush(): not an update but an external call on the node *)
 Definition flush_actions (s : nstate) : list action :=
   let mds := flat_map snd (st_win s) in
-  [AEmit (VTup (map fst (st_win s))) mds; ARelease mds; ASet (set_win s [])].
+  [ASet (set_win s []); AEmit (VTup (map fst (st_win s))) mds; ARelease mds].
 
 (* nodes whose update is a tornado coroutine: an exception raised below them is
    captured in the returned future instead of unwinding the caller's loop *)
